@@ -138,13 +138,13 @@ def check_solver(ck, repo, df, sv):
 
 
 def pure_counters(lp):
-    """Carried numeric variables whose transfer is 'previous value + positive constant'."""
+    """Carried numeric variables whose transfer is 'previous value + non-zero constant' (counting up, or a budget counting down)."""
     out = set()
     for nm, b in getattr(lp, "bound", {}).items():
         t = lp.transfer.get(nm)
         if isinstance(b, Num) and isinstance(t, Num):
             d = t.r - b.r
-            if d.is_const() and d.const_value() > 0:
+            if d.is_const() and d.const_value() != 0:
                 out.add(nm)
     return out
 
